@@ -223,21 +223,16 @@ Definition listed (r : list (Z * list Z)) (e : event) : bool :=
 Definition index_nonzero (o : op) : bool :=
   match o with OConsume _ i _ => negb (i =? 0) | _ => true end.
 
-(* the way Pipeline.Run calls Consume: the first consumed commit has index 0 and no other has;
-   returns that first commit *)
-Fixpoint shape (ops : list op) : option commit :=
-  match ops with
-  | [] => None
-  | OConsume _ i c :: rest => if (i =? 0) && forallb index_nonzero rest then Some c else None
-  | _ :: ops' => shape ops'
-  end.
+Definition is_bad (r : out) : bool := match r with RBad => true | _ => false end.
 
-(* operations on a branch that does not exist change nothing (RBad) and are not part of the history *)
-Fixpoint effective (ops : list op) (outs : list out) : list op :=
+(* the way Pipeline.Run calls Consume: the first consumed commit has index 0 (and is consumed on a
+   branch that exists) and no other has; returns that first commit *)
+Fixpoint shape (ops : list op) (outs : list out) : option commit :=
   match ops, outs with
-  | o :: ops', r :: outs' =>
-      match r with RBad => effective ops' outs' | _ => o :: effective ops' outs' end
-  | _, _ => []
+  | OConsume _ i c :: rest, r :: _ =>
+      if (i =? 0) && forallb index_nonzero rest && negb (is_bad r) then Some c else None
+  | _ :: ops', _ :: outs' => shape ops' outs'
+  | _, _ => None
   end.
 
 Definition times (l : list event) : list Z := map (fun e => c_when (fst e)) l.
